@@ -2,7 +2,7 @@
    Only statements and [exact]; proofs live in Proofs/Scopes*.v.  The scope definitions the theorems are about
    (Gen/ScopeDefs.v) are regenerated from the source of /repo on every run. *)
 From PG Require Import Common.Tactics Model.ScopesBase Gen.ScopeDefs Model.Scopes
-  Proofs.ScopesStore Proofs.ScopesInstance Proofs.ScopesRestore Proofs.ScopesCongruence Proofs.ScopesEffective Proofs.ScopesMachine.
+  Proofs.ScopesStore Proofs.ScopesInstance Proofs.ScopesRestore Proofs.ScopesCongruence Proofs.ScopesEffective Proofs.ScopesMachine Proofs.ScopesExamples.
 
 (* (1) RESTORATION.  For every well-nested program over all the managers — any depth, any argument values,
    exceptions raised anywhere and caught anywhere, enters that fail — and every state s (even an ill-typed one),
